@@ -273,10 +273,9 @@ def merge_collisions(chk, facts):
     pts = mutation_points(f)
     first_mut = {start for start, desc, flds, line, fall, cb in pts if flds & {"self.links", "self.templates", "self.template_to_links_map"}}
     oks = protocol.ok_blocks(f)
-    rn = None
-    for nm, p_ in f.r["dbg"]:
-        if nm == "rename_duplicates" and len(p_) == 1:
-            rn = p_[0]
+    # the renaming switch is the function's only bool parameter
+    bools = [i for i in range(1, f.nargs + 1) if f.locals[i] == "bool"]
+    rn = bools[0] if len(bools) == 1 else None
     for what, suffix in (("templates of other vs links of self", "PolicySet::get"), ("links of other vs templates of self", "PolicySet::get_template")):
         sites = [(b, t) for b, t in f.calls() if callee(t).endswith(suffix)]
         heads = set()
